@@ -65,6 +65,9 @@ pub enum FaultKind {
     /// sequences (and, for odd seeds of the soup form, invalid bytes), so multi-byte characters
     /// straddle every offset
     Soup { seed: u16, len: u16 },
+    /// a well-formed Echo call that is `over` bytes longer than the compiled-in size limit of the
+    /// receive buffer (only generated in the small-limit build: the production limit is 100 MiB)
+    Oversized { over: u16 },
 }
 
 /// `len` bytes of NUL-free content drawn from a mixed alphabet (deterministic in `seed`).
@@ -230,6 +233,16 @@ impl FrameSpec {
                 FaultKind::MissingParam => format!(r#"{{"method":"org.example.Echo","parameters":{{"c":{c}}}}}"#).into_bytes(),
                 FaultKind::BadFlag => format!(r#"{{"method":"org.example.Noop","parameters":{{"c":{c},"id":1}},"oneway":"yes"}}"#).into_bytes(),
                 FaultKind::TrailingAfterCall => format!(r#"{{"method":"org.example.Echo","parameters":{{"c":{c},"id":77,"pad":"t"}}}}{{"method":"org.example.Noop","parameters":{{"c":{c},"id":78}}}}"#).into_bytes(),
+                FaultKind::Oversized { over } => {
+                    let head = format!(r#"{{"method":"org.example.Echo","parameters":{{"c":{c},"id":99,"pad":""#);
+                    let tail = "\"}}";
+                    let total = zlink_core::__verif::MAX_BUFFER_SIZE + over as usize;
+                    let mut v = head.into_bytes();
+                    let fill = total.saturating_sub(v.len() + tail.len());
+                    v.extend(std::iter::repeat(b'o').take(fill));
+                    v.extend_from_slice(tail.as_bytes());
+                    v
+                }
                 FaultKind::Soup { seed, len } => {
                     let len = len as usize;
                     match seed % 3 {
@@ -817,7 +830,11 @@ pub fn judge_trace(sc: &Scenario, trace: &Trace) -> Result<(), Fail> {
             // A peer that closes (or whose transport fails) in the middle of a frame: zlink reports the
             // end of the stream without serving the complete frames that were read together with the
             // partial one. No listed property demands those replies, so only consistency is checked.
-            let ok = if m.dead && !at_boundary {
+            // An oversized frame ends the connection as soon as the buffer is full, i.e. before the
+            // frame is complete: like a mid-frame close, complete calls read together with its
+            // beginning are not served. Only consistency is demanded of such a connection.
+            let oversized = sc.conns[c].frames.iter().any(|f| matches!(f, FrameSpec::Fault(FaultKind::Oversized { .. })));
+            let ok = if m.dead && (!at_boundary || oversized) {
                 let k = got.len().min(m.out.len());
                 got[..k] == m.out[..k]
             } else if m.dead {
